@@ -395,21 +395,16 @@ def stepModel (s : State) (line : String) : State × String :=
     | some k, some off =>
       let sT : Term := .iri "x:s".toList
       let pT : Term := .iri "x:p".toList
-      let mk (i : Nat) : Term := .lit (toString i).toList "x:fill".toList
+      let mk (i : Nat) : Term := StdStore.fillTerm i
       match Store.insert s.st ⟨sT, pT, mk off, none⟩ with
       | (st1, none) => ({ s with st := st1, tainted := true }, "n=full")
       | (st1, some b0) =>
         let spec1 := (Spec.insert s.spec ⟨sT, pT, mk off, none⟩).1
-        let is := (getIndex st1.terms sT).getD 0
-        let ip := (getIndex st1.terms pT).getD 0
-        let base := st1.terms.length
-        let room := st1.max - base
+        let room := st1.max - st1.terms.length
         let m := min (k - 1) room
-        let newTerms := (List.range m).map (fun j => mk (off + 1 + j))
-        let canon (j : Nat) : Row := if n = 4 then [st1.max, is, ip, base + j] else [is, ip, base + j]
-        let idx' := (st1.idx.zip st1.shape.perms).map (fun (ix, perm) =>
-          ((List.range m).map (fun j => layout perm (canon j))).reverse ++ ix)
-        let st2 : St := { st1 with terms := st1.terms ++ newTerms, idx := idx' }
+        let newTerms := StdStore.fillTerms (off + 1) m
+        -- = `insertAll st1 (objQuads sT pT newTerms) 0` (theorem `fill_is_insert_all`)
+        let st2 : St := (StdStore.bulkInsert st1 sT pT newTerms).1
         let spec2 := spec1 ++ newTerms.map (fun t => (⟨sT, pT, t, none⟩ : Quad))
         if m < k - 1 then ({ s with st := st2, spec := spec2 }, "n=full")
         else ({ s with st := st2, spec := spec2 },
